@@ -54,6 +54,29 @@ pub fn gencfg(prop: &str, tier: &str, rng: &mut Rng) -> GenCfg {
         "C01" => {
             g.mix = Mix::per_key();
         }
+        "C03" if rng.chance(1, 8) => {
+            // clear-heavy family: a clear that races a resize while others re-populate bins it has
+            // already swept (the composition behind finding F8), on tables about to grow, with
+            // hashes whose bins are split by the resize
+            g.mix = Mix::zero();
+            g.mix.clear = 4;
+            g.mix.insert = 8;
+            g.mix.extend = 3;
+            g.mix.try_insert = 1;
+            g.mix.get = 2;
+            g.mix.iter_all = 2;
+            g.mix.retain = 1;
+            g.mix.remove = 1;
+            g.swarm = false;
+            g.pressure = true;
+            g.hold_guard = 20;
+            g.allow_set = false;
+            g.threads = (3, 5);
+            g.ops = (3, 9);
+            g.hot_keys = (3, 8);
+            g.shapes = vec![Shape::AtThreshold, Shape::AtThreshold, Shape::Tiny, Shape::TreeAtThreshold];
+            g.hashes = vec![HashKind::Identity, HashKind::Split(2), HashKind::Split(3), HashKind::Mod(4)];
+        }
         "C03" | "C04" => {
             g.mix = everything;
             g.mix.collect = 2;
@@ -254,7 +277,7 @@ fn base_plan(prop: &str, tier: &str, run_seed: u64) -> Plan {
     if prop == "C10" {
         opts.post_growth = true;
     }
-    if prop == "C03" && run_seed % 3 == 0 {
+    if prop == "C03" && (run_seed % 3 == 0 || gc.mix.clear == 4) {
         opts.retire_check = true;
     }
     if prop == "C15" {
